@@ -104,7 +104,7 @@ def als(I_trn, y_trn, Y0, nswp=50, e=1.E-16, info={}, *, I_vld=None, y_vld=None,
         info['rearrange'] = rearrange
         print('!!! Note that "allow_swap" is a VERY experimental option')
 
-    Y = teneva.copy(Y0)
+    Y = [np.array(G, dtype=float, order='C') for G in Y0]
     if r is not None:
         Y = teneva.orthogonalize(Y, 0, use_stab)
 
